@@ -23,3 +23,6 @@ import MicroHttp.Props.Tables
 #print axioms MicroHttp.Tables.status_raw
 #print axioms MicroHttp.Tables.http_scheme_prefix
 #print axioms MicroHttp.Tables.no_shared_state
+#print axioms MicroHttp.Tables.method_to_str
+#print axioms MicroHttp.Tables.uri_abs_path
+#print axioms MicroHttp.Tables.fromFirstSlash_eq_dropWhile
